@@ -109,11 +109,20 @@ def r01_3(ctx, rr):
     wpb = ("def", "rank_sel::rank9::Rank9::WORDS_PER_BLOCK")
     st = {"step": None, "inner": None, "pushes_in": 0, "pushes_out": 0, "setrel": []}
     pm = {id(n): ps for n, ps in walk_with_parents(nb.body)}
+    # the local(s) that become the field `counts` of the result (by role, not by name)
+    counts_ids = set()
+    for n in walk(nb.body):
+        if n.get("k") == "Struct" and range_of(F, n) is None:
+            for f in n["fields"]:
+                if f["name"] == "counts":
+                    counts_ids |= set(x["id"] for x in walk(f["e"]) if x.get("k") == "Path" and x.get("res") == "local")
+    if not counts_ids:
+        raise AnchorMissing("Rank9::new: no local flows into the field `counts`")
 
     def on_new(W, n, K):
         if n.get("k") == "MethodCall" and n["name"] == "step_by":
             st["step"] = W.T.term(n["args"][0])
-        if n.get("k") == "MethodCall" and n["name"] == "push" and show(F, n["recv"]) == "counts":
+        if n.get("k") == "MethodCall" and n["name"] == "push" and n["recv"].get("k") == "Path" and n["recv"].get("res") == "local" and n["recv"].get("id") in counts_ids:
             depth = sum(1 for p in pm.get(id(n), ()) if p.get("k") == "Loop")
             if depth == 1:
                 st["pushes_in"] += 1
